@@ -55,6 +55,8 @@ ConvOK(av, pv, T) ==
       [] pv.t = "Float32" /\ T = "Float64"  -> av.t = "Float64" /\ FEq(av.v, WidenF32(pv.v))
       [] pv.t = "EnumItem" /\ T = "Enum"    -> av.t = "Enum" /\ av.v = pv.v[2]
       [] pv.t = "Int32" /\ T = "BrickColor" -> av.t = "BrickColor" /\ av.v = pv.v[3] * 256 + pv.v[4]
+      [] pv.t = "Content" /\ T = "ContentId" -> av.t = "ContentId" /\ av.v = (IF pv.v[1] = 0 THEN <<>> ELSE pv.v[2])
+      [] pv.t = "BinaryString" /\ T = "Tags" -> av.t = "Tags" /\ JoinNul(av.v) = pv.v
       [] OTHER -> TRUE
 ConvIssues(A, B) ==
     UNION { { <<k, B.inst[k].class, B.inst[k].props[x][1], "not-converted">> :
@@ -65,7 +67,17 @@ ConvIssues(A, B) ==
                           IN ys = {} \/ \E y \in ys : ~ConvOK(A.inst[k].props[y][2], B.inst[k].props[x][2], CanonicalType(c, nm)) } }
             : k \in 1..Len(B.inst) }
 
+\* a conversion only rbx_xml performs (Content given for a ContentId property): rbx_binary refuses the forest with a
+\* type mismatch, rbx_xml stores the converted value
+CheckXmlOnly ==
+    /\ Clause("bin-refuses", Ev.bin.write = "err")
+    /\ Clause("xml-trip", TripOK(Ev.xml))
+    /\ (TripOK(Ev.xml) /\ Len(Ev.xml.after.inst) = Len(Ev.before.inst)) =>
+          LET iss == ConvIssues(Ev.xml.after, Ev.before) IN
+          IF iss = {} THEN TRUE ELSE Report("converted", iss)
+
 CheckCross ==
+    IF "xml_only" \in DOMAIN Ev THEN CheckXmlOnly ELSE
     /\ ("convertible" \in DOMAIN Ev /\ TripOK(Ev.bin) /\ Len(Ev.bin.after.inst) = Len(Ev.before.inst)) =>
           LET iss == ConvIssues(Ev.bin.after, Ev.before) IN
           IF iss = {} THEN TRUE ELSE Report("converted", iss)
